@@ -233,6 +233,26 @@ def _(w):
     return impl.URL("file:///d/e?q=1#f").with_path(w)
 
 
+@route("with_name_file", "mod", _one("name", "decoded", has_authority=False))
+def _(w):
+    return impl.URL("file:///d/e?q=1#f").with_name(w)
+
+
+@route("with_suffix_file", "mod", _one("suffix", "decoded", lambda w: "." + w, has_authority=False))
+def _(w):
+    return impl.URL("file:///d/e.txt").with_suffix("." + w)
+
+
+@route("truediv_file", "mod", _one("child", "decoded", has_authority=False))
+def _(w):
+    return impl.URL("file:///d/e") / w
+
+
+@route("with_fragment_file", "mod", _one("fragment", "decoded", has_authority=False))
+def _(w):
+    return impl.URL("file:///d/e?q=1#f").with_fragment(w)
+
+
 @route("with_path_keep", "mod", _one("path", "decoded", _rooted, has_authority=True))
 def _(w):
     return impl.URL(BA).with_path(w, keep_query=True, keep_fragment=True)
